@@ -353,3 +353,73 @@ def _shapes(tier):
 
 one_burst.shapes = _shapes
 one_burst.cost = 30
+
+
+class _Ev(TransmissionObserverInterface):
+    def __init__(self):
+        self.ev = []
+
+    def transmission_started(self, transmission_type):
+        self.ev.append(("start", transmission_type))
+
+    def data_transmission_ended(self, transmission_header, blocks):
+        self.ev.append(("end", TT.DataTransmission))
+
+    def voice_transmission_ended(self, voice_header, blocks):
+        self.ev.append(("end", TT.VoiceTransmission))
+
+
+@contract("TransmissionWatcher.process_burst", "okdmr.dmrlib.transmission.transmission_watcher:TransmissionWatcher.process_burst", ["C08"],
+          stubs=["BitCrcRegister._process_bits", "BPTC19696.encode", "BPTC19696.deinterleave_data_bits"],
+          note="the layer above the terminals: a burst of the alphabet goes to the terminal of its destination address and to the timeslot it names - "
+               "a terminal per destination, created on first use -, every other terminal / timeslot is left alone, a burst without a destination is ignored; "
+               "end_all_transmissions leaves every tracker idle.  Destination addresses are literals (the terminal table is a run-time dict), contents symbolic")
+def watcher_one(vc, dest, known, timeslot, kind):
+    from okdmr.dmrlib.transmission.transmission_watcher import TransmissionWatcher
+    from okdmr.dmrlib.etsi.layer2.elements.data_packet_formats import DataPacketFormats
+    from okdmr.dmrlib.etsi.layer2.elements.sap_identifier import SAPIdentifier
+    from okdmr.dmrlib.etsi.layer2.elements.full_message_flag import FullMessageFlag
+
+    rec = _Ev()
+    w = TransmissionWatcher(observers=[rec])
+    for d in known:
+        w.ensure_terminal(d)
+    before = {d: (t, dict(t.timeslots)) for d, t in w.terminals.items()}
+    if kind == "data_header":
+        pdu = DataHeader(dpf=DataPacketFormats.DataPacketUnconfirmed, sap_identifier=SAPIdentifier.ShortData, llid_destination=dest, llid_source=vc.uint(24, "src"),
+                         blocks_to_follow=1 + vc.uint(3, "btf"), pad_octet_count=vc.uint(4, "poc"), is_group=vc.bit("g"), is_response_requested=0, full_message_flag=FullMessageFlag(1), fragment_sequence_number=0)
+        dt = DataTypes.DataHeader
+    else:  # a voice LC header: carries no destination the watcher could read (group address lives in the LC, not in the burst attributes)
+        pdu = None
+        dt = DataTypes.VoiceLCHeader
+    if pdu is None:
+        raw = PRELUDE["voice_header"]
+    else:
+        b = Burst(burst_type=BurstTypes.DataAndControl)
+        b.has_emb = False
+        b.sync_or_embedded_signalling = SyncPatterns.BsSourcedData
+        b.slot_type = SlotType(colour_code=vc.uint(4, "cc"), data_type=dt)
+        b.data = pdu
+        raw = b.as_bytes()
+    burst = Burst.from_bytes(raw)
+    burst.timeslot = timeslot
+    out = w.process_burst(burst)
+    if kind != "data_header" or dest == 0:
+        vc.prove("burst_without_destination_is_ignored", out is None and set(w.terminals) == set(known) and not rec.ev)
+    else:
+        vc.prove("returns_the_processed_burst", out is burst)
+        vc.prove("one_terminal_per_destination_created_on_first_use", set(w.terminals) == set(known) | {dest} and w.terminals[dest].id == dest)
+        vc.prove("known_terminals_are_kept", all(w.terminals[d] is t and w.terminals[d].timeslots == ts for d, (t, ts) in before.items()))
+        tx = w.terminals[dest].timeslots[timeslot].transmission
+        vc.prove("burst_reaches_the_timeslot_it_names", tx.type is TT.DataTransmission and tx.header is not None)
+        other_ts = w.terminals[dest].timeslots[3 - timeslot].transmission
+        vc.prove("the_other_timeslot_and_other_terminals_stay_idle", other_ts.type is TT.Idle and all(s.transmission.type is TT.Idle for d, t in w.terminals.items() if d != dest for s in t.timeslots.values()))
+        vc.prove("observers_of_the_watcher_are_told", rec.ev == [("start", TT.DataTransmission)])
+    w.end_all_transmissions()
+    vc.prove("end_all_transmissions_leaves_every_tracker_idle", all(s.transmission.type is TT.Idle for t in w.terminals.values() for s in t.timeslots.values()))
+    if kind == "data_header" and dest != 0:
+        vc.prove("an_open_transmission_is_ended_exactly_once", rec.ev == [("start", TT.DataTransmission), ("end", TT.DataTransmission)])
+
+
+watcher_one.shapes = lambda tier: [dict(dest=d, known=k, timeslot=ts, kind=kind) for d in (1, 2308155) for k in ([], [1], [1, 77]) for ts in (1, 2) for kind in ("data_header", "voice_header")]
+watcher_one.budget_s = 120
